@@ -139,7 +139,7 @@ def random_obj(rng, kind):
     if kind == 'nfa':
         return G.random_nfa(rng, k, rng.choice(['a', 'ab', 'ab', '']), rng.choice(['_', 'ε', 'e']), names=Q, peps=0.3)
     if kind == 'pda':
-        p = G.random_pda(rng, k, rng.choice(['a', 'ab', '']), rng.choice(['x', 'xy', '$x', '#@']), rng.choice(['_', 'ε']), ntrans=rng.randint(0, 6))
+        p = G.random_pda(rng, k, rng.choice(['a', 'ab', '']), rng.choice(['x', 'xy', '$x', '#@', '%x', '&*']), rng.choice(['_', 'ε']), ntrans=rng.randint(0, 6))
         m = dict(zip(p['Q'], Q))
         p['Q'] = Q
         p['q0'] = m[p['q0']]
@@ -148,10 +148,10 @@ def random_obj(rng, kind):
         return p
     blank = rng.choice(['_', '□'])
     sigma = rng.choice([['a'], ['a', 'b'], []])
-    gamma = sorted(set(sigma + [blank] + (['x'] if rng.random() < 0.5 else [])))
+    gamma = sorted(set(sigma + [blank] + (['x'] if rng.random() < 0.5 else []) + (rng.choice([['%'], ['$', '%'], ['#'], ['~', '!']]) if rng.random() < 0.4 else [])))
     Qa = Q + ['acc', 'rej']
     delta, seen = [], set()
-    for _ in range(rng.randint(0, 6)):
+    for _ in range(rng.randint(0, 8)):
         p, a = rng.choice(Q), rng.choice(gamma)
         if (p, a) in seen:
             continue
